@@ -466,6 +466,7 @@ def semantic_mutants():
     out.append(("sets: rule-set local variable used in another rule set", sets.replace("$s * $q", "$s * $a $q"), "scope"))
     out.append(("sets: rule-set local variable used at top level", sets + "\nlet t = $s ;\nrule X {\n    $t = 4 ,\n}", "scope"))
     out.append(("sets: local let shadows a top-level let", sets.replace("let s = _ # '\"' ;", "let s = _ # '\"' ;\n    let q = 'q' ;"), "dup-let"))
+    out.append(("sets: rule-set variable used before its let in the same rule set", sets.replace("    let a = [ 'a' - 'z' ] ;\n    $a + = 0 ,", "    $a + = 0 ,\n    let a = [ 'a' - 'z' ] ;"), "unbound"))
     out.append(("plain: variable used before its definition", plain.replace("let w = $d + ;\n$w = 0 ,", "$w = 0 ,\nlet w = $d + ;"), "unbound"))
     out.append(("plain: two variables swapped (use before definition)", plain.replace("let d = [ '0' - '9' ] ;\nlet w = $d + ;", "let w = $d + ;\nlet d = [ '0' - '9' ] ;"), "order"))
     return out
